@@ -64,11 +64,11 @@ func (it *Interp) makeObs(b *Backend, j int) {
 		}
 		if os.Order == 3 {
 			for _, c := range l {
-				f(compsOf([]int{c}))
+				useComps([]int{c}, f)
 			}
 			return
 		}
-		f(compsOf(l))
+		useComps(l, f)
 	}
 	doFor := func() { split(forList, o.For) }
 	doWith := func() { split(os.With, o.With) }
@@ -92,6 +92,7 @@ func (it *Interp) makeObs(b *Backend, j int) {
 		doWith()
 		doExcl()
 	}
+	flushScramble()
 	typed := os.Inst >= 0 && !b.Pol.ForceUnsafe
 	o.Do(func(e ecs.Entity, p Ptrs) { it.onEvent(b, j, e, p, typed) })
 	b.obs[j] = o
@@ -216,6 +217,9 @@ func (it *Interp) opEmit(op *Op) {
 
 // onEvent is the body of every observer callback.
 func (it *Interp) onEvent(b *Backend, j int, e ecs.Entity, p Ptrs, typed bool) {
+	if b.inReenter {
+		return // events of the world change a callback makes itself (see below) are not part of the model
+	}
 	os := it.M.Obs[j]
 	s := -1
 	if !e.IsZero() {
@@ -236,6 +240,37 @@ func (it *Interp) onEvent(b *Backend, j int, e ecs.Entity, p Ptrs, typed bool) {
 		// (a backend that replaces batches by single operations, or typed calls by ID-based ones followed by writes,
 		// reaches the same final state but not the same state at callback time)
 		it.inspect(b, j, s, e)
+	}
+	if os.Reenter && !removalEvent(os.Ev) && !b.W.IsLocked() && !e.IsZero() && b.W.Alive(e) {
+		// Callbacks of single-entity operations on an unlocked world may change the world. This one creates an entity
+		// with a relation to the reported entity through the ID-based API and removes it again: no net effect, but the
+		// world's scratch space is used while the outer operation is still under way.
+		b.inReenter = true
+		r := comps.IR1 + it.Step%3
+		id := b.ids([]int{r})
+		perr := try(func() {
+			if op := it.cur; op != nil && op.P == PMap && (op.K == "setRel" || op.K == "add" || op.K == "new") && op.M < len(MapInsts) && MapInsts[op.M].Mask&comps.RelMask != 0 && !b.Pol.ForceUnsafe {
+				// through the very mapper the outer operation is using (its scratch space is in use right now)
+				list := MapInsts[op.M].Comps
+				var args []RelArg
+				for pos, c := range list {
+					if comps.All[c].Relation {
+						args = append(args, RelArg{Pos: pos, Comp: c, Target: e, Style: 0})
+					}
+				}
+				tmp := b.Mapper(op.M).NewEntity(make([]int64, len(list)), args)
+				b.W.RemoveEntity(tmp)
+				it.count("callback-used-the-mapper-of-the-running-operation")
+				return
+			}
+			tmp := b.U.NewEntityRel(id, ecs.RelID(id[0], e))
+			b.W.RemoveEntity(tmp)
+		})
+		b.inReenter = false
+		if perr != nil {
+			fail("events|"+it.cur.K+"|"+evNames[os.Ev]+"|reentrant-op-panicked", "%s step %d %v: creating and removing an entity from inside an unlocked %s callback panicked: %v", b.Name, it.Step, it.cur, evNames[os.Ev], perr)
+		}
+		it.count("callback-changed-the-world")
 	}
 	if os.UnregP1 > 0 && !b.Pol.DropObsOdd {
 		k := os.UnregP1 - 1
@@ -371,6 +406,17 @@ func (it *Interp) opOpenQuery(op *Op) {
 			if it.M.OpenQ == 64 {
 				it.count("64-queries-open")
 			}
+		}
+		if !valid && op.N > 0 {
+			// the attempt is repeated op.N more times by a caller that keeps retrying; every one is rejected
+			for _, b := range it.B {
+				for k := 0; k < op.N; k++ {
+					if p := try(func() { b.openQueryOn(it.M, op.F, op.QRels) }); p == nil {
+						fail("reject|qOpen|no-panic", "%s step %d: attempt %d to open a 65th query did not panic", b.Name, it.Step, k+1)
+					}
+				}
+			}
+			it.count("many-rejected-65th-queries")
 		}
 		it.run(op, valid, func(b *Backend) {
 			q := b.openQueryOn(it.M, op.F, op.QRels)
